@@ -6,6 +6,7 @@ import (
 	"testing"
 	"time"
 
+	"github.com/libp2p/go-libp2p/core/peer"
 	"pgregory.net/rapid"
 
 	"verif/internal/hx"
@@ -38,20 +39,25 @@ type opPlan struct {
 type attackPlan struct {
 	Base  int      `json:"base"`
 	Ops   []opPlan `json:"ops"`
-	Srv   int      `json:"srv"`   // 0 = the instance the base material comes from, 1 = the other one
+	Srv   int      `json:"srv"`   // 0 = the instance the base material comes from, k>0 = the k-th other one (cyclically)
 	Host  int      `json:"host"`  // 0 same, 1 other valid, 2 not a valid hostname, 3 upper-cased
 	Sleep int      `json:"sleep"` // sleep class, see sleepFor
 	SNI   int      `json:"sni"`   // tls mode only: 0 = SNI equals Host, 1 = mismatch
 	Chal  uint64   `json:"-"`
 }
 
+const maxSrv = 3
+
 type scenario struct {
-	SrvKey   [2]int        `json:"srv_key"`
-	SrvTTL   [2]int        `json:"srv_ttl"`
-	SrvTLS   [2]bool       `json:"srv_tls"`
-	Clients  [3]int        `json:"client_key"`
-	Sessions []sessionPlan `json:"sessions"`
-	Attacks  []attackPlan  `json:"attacks"`
+	NSrv      int           `json:"n_srv"`
+	SrvKey    [maxSrv]int   `json:"srv_key"`
+	SrvTTL    [maxSrv]int   `json:"srv_ttl"`
+	SrvTLS    [maxSrv]bool  `json:"srv_tls"`
+	SrvSecret [maxSrv]int   `json:"srv_secret"` // secretMode: 0 own HmacKey, 1 HmacKey shared with the other instances in this mode, 2 HmacKey unset
+	SrvTwin   [maxSrv]bool  `json:"srv_twin"`   // same private key as instance 0 (a replica by identity; its secret is still governed by SrvSecret)
+	Clients   [3]int        `json:"client_key"`
+	Sessions  []sessionPlan `json:"sessions"`
+	Attacks   []attackPlan  `json:"attacks"`
 }
 
 var ttlChoices = []time.Duration{20 * time.Second, 4 * time.Minute, 7 * time.Minute, time.Hour}
@@ -77,10 +83,15 @@ var opNames = [...]string{"flip", "trunc", "drop", "dup", "reorder", "recase", "
 func drawScenario(rt *rapid.T) scenario {
 	var sc scenario
 	sel := rapid.IntRange(0, 1<<16-1)
-	for i := 0; i < 2; i++ {
+	sc.NSrv = rapid.SampledFrom([]int{2, 2, 2, 3, 3}).Draw(rt, "nsrv")
+	for i := 0; i < sc.NSrv; i++ {
 		sc.SrvKey[i] = rapid.IntRange(0, 3).Draw(rt, "srvkey")
 		sc.SrvTTL[i] = rapid.IntRange(0, len(ttlChoices)-1).Draw(rt, "srvttl")
 		sc.SrvTLS[i] = rapid.IntRange(0, 3).Draw(rt, "srvtls") == 0
+		sc.SrvSecret[i] = int(rapid.SampledFrom([]secretMode{secretOwn, secretOwn, secretShared, secretUnset, secretUnset}).Draw(rt, "srvsecret"))
+		if i > 0 {
+			sc.SrvTwin[i] = rapid.IntRange(0, 4).Draw(rt, "srvtwin") == 0
+		}
 	}
 	for i := range sc.Clients {
 		sc.Clients[i] = rapid.IntRange(0, 3).Draw(rt, "clientkey")
@@ -89,7 +100,7 @@ func drawScenario(rt *rapid.T) scenario {
 	for i := 0; i < ns; i++ {
 		sc.Sessions = append(sc.Sessions, sessionPlan{
 			Client: rapid.IntRange(0, 2).Draw(rt, "client"),
-			Srv:    rapid.IntRange(0, 1).Draw(rt, "srv"),
+			Srv:    rapid.IntRange(0, sc.NSrv-1).Draw(rt, "srv"),
 			Host:   rapid.IntRange(0, 1).Draw(rt, "host"),
 			CI:     rapid.Bool().Draw(rt, "ci"),
 			Gap:    rapid.SampledFrom([]int{0, 0, 1, 1000, 2500}).Draw(rt, "gap"),
@@ -100,7 +111,7 @@ func drawScenario(rt *rapid.T) scenario {
 	for i := 0; i < na; i++ {
 		a := attackPlan{
 			Base:  sel.Draw(rt, "base"),
-			Srv:   rapid.SampledFrom([]int{0, 0, 0, 0, 1}).Draw(rt, "tsrv"),
+			Srv:   rapid.SampledFrom([]int{0, 0, 0, 0, 0, 1, 1, 2}).Draw(rt, "tsrv"),
 			Host:  rapid.SampledFrom([]int{0, 0, 0, 0, 0, 1, 1, 2, 3}).Draw(rt, "thost"),
 			Sleep: rapid.SampledFrom([]int{0, 0, 0, 0, 0, 0, 1, 2, 3, 4, 5, 6, 7, 8, 9, 10}).Draw(rt, "sleep"),
 			SNI:   rapid.SampledFrom([]int{0, 0, 0, 0, 0, 0, 0, 1}).Draw(rt, "sni"),
@@ -209,6 +220,55 @@ func (c *actx) donor(kind string, sel int, not string) (poolEntry, bool) {
 		}
 	}
 	return es[sel%len(es)], true
+}
+
+// strangers are identities that never talk to any server of the case.
+func stranger(i int) *keys.Identity { return keys.Get(keys.Types[i%len(keys.Types)], 40) }
+
+// victimOf picks the peer a forgery names: an identity of the case, somebody no server has ever
+// seen, or the target server itself.
+func (c *actx) victimOf(sel int) (peer.ID, []byte, string) {
+	n := len(c.w.idents)
+	switch k := sel % (n + 3); {
+	case k < n:
+		return c.w.idents[k].ID, mustPubBytes(c.w.idents[k].Pub), "client"
+	case k < n+2:
+		x := stranger(sel / (n + 3))
+		return x.ID, mustPubBytes(x.Pub), "stranger"
+	default:
+		return c.target.ident.ID, c.target.pub, "server-id"
+	}
+}
+
+// guessKey returns a secret that somebody who never talked to the target could try: no key at
+// all, zeros, public data (the hostname, the server's public key, its peer ID), the secret of a
+// different deployment, or the application-provided secret of another instance of this case
+// that is NOT in the target's secret domain. None of them is the target's secret unless the
+// target fails to have one of its own.
+func (c *actx) guessKey(sel int) ([]byte, string) {
+	switch sel % 10 {
+	case 0, 1:
+		return nil, "empty-secret"
+	case 2:
+		return make([]byte, 32), "zero-secret"
+	case 3:
+		return make([]byte, 64), "zero-block-secret"
+	case 4:
+		return []byte(c.host), "hostname-secret"
+	case 5:
+		return append([]byte(nil), c.target.pub...), "server-pubkey-secret"
+	case 6:
+		return []byte(c.target.ident.ID.String()), "server-peerid-secret"
+	case 7:
+		return ownSecret(17), "unrelated-secret"
+	}
+	for k := 0; k < len(c.w.srv); k++ {
+		o := c.w.other(c.target, sel/10+k)
+		if o != c.target && o.domain != c.target.domain && o.hmacKey != nil {
+			return append([]byte(nil), o.hmacKey...), "other-instance-secret"
+		}
+	}
+	return ownSecret(17), "unrelated-secret"
 }
 
 // apply performs one operator; it returns a short descriptor ("flip:opaque").
@@ -388,6 +448,8 @@ func (c *actx) apply(a *areq, op opPlan) string {
 		a.params[pi].V = e.v
 		rel := "same-origin"
 		switch {
+		case e.srv != c.target.idx && c.w.srv[e.srv].domain == c.target.domain:
+			rel = "replica-server"
 		case e.srv != c.target.idx:
 			rel = "other-server"
 		case e.owner != c.victim:
@@ -460,7 +522,7 @@ func (c *actx) apply(a *areq, op opPlan) string {
 		ks := "target-key"
 		switch op.C % 5 {
 		case 3:
-			parts = append(parts, kv{"server-public-key", c.w.srv[1-c.target.idx].pub})
+			parts = append(parts, kv{"server-public-key", c.w.other(c.target, op.C/5).pub})
 			ks = "other-server-key"
 		case 4:
 			parts = append(parts, kv{"server-public-key", mustPubBytes(x.Pub)})
@@ -506,23 +568,22 @@ func (c *actx) apply(a *areq, op opPlan) string {
 		}
 		return strings.Join([]string{name, who, chs, ks, hs, pk}, ":")
 	case opForge:
-		victim := c.w.idents[op.B%len(c.w.idents)]
-		other := c.w.srv[1-c.target.idx]
+		// State that this server never minted: made offline under a secret anybody could try
+		// (guessKey), or stitched together from genuine pieces. It names an arbitrary peer.
+		vid, vpub, vl := c.victimOf(op.B)
 		now := time.Now()
-		tok := forgedState{IsToken: true, PeerID: victim.ID, Hostname: c.host, CreatedTime: now}
-		switch op.A % 6 {
-		case 0:
-			a.params = []param{{"bearer", b64(forge(other.hmacKey, tok))}}
-			return name + ":token:other-server-secret"
-		case 1:
-			a.params = []param{{"bearer", b64(forge(make([]byte, 32), tok))}}
-			return name + ":token:zero-secret"
-		case 2:
+		tok := forgedState{IsToken: true, PeerID: vid, Hostname: c.host, CreatedTime: now}
+		switch op.A % 8 {
+		case 0, 1, 2:
+			key, kl := c.guessKey(op.D)
+			a.params = []param{{"bearer", b64(forge(key, tok))}}
+			return name + ":token:" + kl + ":" + vl
+		case 3:
 			f := forge(nil, tok)
 			copy(f[:32], make([]byte, 32))
 			a.params = []param{{"bearer", b64(f)}}
 			return name + ":token:zero-mac"
-		case 3:
+		case 4:
 			// genuine MAC of a real token of this instance spliced onto a forged body
 			e, ok := c.donor("bearer", op.C, "")
 			if !ok {
@@ -536,7 +597,7 @@ func (c *actx) apply(a *areq, op opPlan) string {
 			copy(f[:32], d[:32])
 			a.params = []param{{"bearer", b64(f)}}
 			return name + ":token:spliced-mac"
-		case 4:
+		case 5:
 			// genuine token with the peer ID inside its body replaced
 			e, ok := c.donor("bearer", op.C, "")
 			if !ok {
@@ -548,28 +609,34 @@ func (c *actx) apply(a *areq, op opPlan) string {
 			}
 			body := string(d[32:])
 			for _, id := range c.w.idents {
-				if id != victim && strings.Contains(body, id.ID.String()) {
-					body = strings.Replace(body, id.ID.String(), victim.ID.String(), 1)
+				if id.ID != vid && strings.Contains(body, id.ID.String()) {
+					body = strings.Replace(body, id.ID.String(), vid.String(), 1)
 					break
 				}
 			}
 			a.params = []param{{"bearer", b64(append(append([]byte(nil), d[:32]...), body...))}}
 			return name + ":token:peer-id-rewritten"
 		default:
-			// forged challenge state under a foreign secret, correctly signed by an attacker
+			// forged challenge state under a guessable / foreign secret, correctly signed by an
+			// attacker x for THIS server and host. Server-initiated shape: the key travels as a
+			// parameter (x's own, or the victim's); client-initiated shape: the key is inside
+			// the forged state.
 			x := c.w.idents[op.C%len(c.w.idents)]
 			cc := challengeText(uint64(op.D) + 7)
-			st := forgedState{ChallengeClient: cc, Hostname: c.host, CreatedTime: now}
-			key := other.hmacKey
-			if op.D%2 == 0 {
-				key = make([]byte, 32)
-			}
+			key, kl := c.guessKey(op.D)
 			sig := mustSign(x.Priv, clientSigData(cc, c.target.pub, c.host))
-			a.params = []param{{"public-key", b64(mustPubBytes(victim.Pub))}, {"challenge-server", c.chal}, {"sig", b64(sig)}, {"opaque", b64(forge(key, st))}}
-			if op.D%3 == 0 {
-				a.params[0].V = b64(mustPubBytes(x.Pub))
+			st := forgedState{ChallengeClient: cc, Hostname: c.host, CreatedTime: now}
+			if op.P%3 == 0 {
+				st.ClientPublicKey = mustPubBytes(x.Pub)
+				a.params = []param{{"sig", b64(sig)}, {"opaque", b64(forge(key, st))}}
+				return name + ":challenge-ci:" + kl
 			}
-			return name + ":challenge:foreign-secret"
+			pk := mustPubBytes(x.Pub)
+			if op.P%3 == 1 && vpub != nil {
+				pk = vpub
+			}
+			a.params = []param{{"public-key", b64(pk)}, {"challenge-server", c.chal}, {"sig", b64(sig)}, {"opaque", b64(forge(key, st))}}
+			return name + ":challenge-si:" + kl
 		}
 	case opFormat:
 		switch op.A % 9 {
@@ -651,9 +718,12 @@ func TestServerProvenance(t *testing.T) {
 		var labels []string
 		nontrivial := false
 		idents := caseIdentities(sc.Clients)
-		var conf [2]srvConf
-		for i := 0; i < 2; i++ {
-			conf[i] = srvConf{keys.Types[sc.SrvKey[i]], ttlChoices[sc.SrvTTL[i]], sc.SrvTLS[i]}
+		conf := make([]srvConf, sc.NSrv)
+		for i := range conf {
+			conf[i] = srvConf{keys.Types[sc.SrvKey[i]], ttlChoices[sc.SrvTTL[i]], sc.SrvTLS[i], secretMode(sc.SrvSecret[i]), i}
+			if sc.SrvTwin[i] {
+				conf[i].keyType, conf[i].ident = conf[0].keyType, conf[0].ident
+			}
 		}
 		hx.Bubble(t, rt, func() {
 			w := newWorld(rt, conf, idents)
@@ -712,9 +782,10 @@ func TestServerProvenance(t *testing.T) {
 					baseSrv, baseHost, mat, victim = s.srv, s.host, s.matTime, s.client
 					baseName = s.name
 				}
-				target := w.srv[baseSrv]
-				if ap.Srv == 1 {
-					target = w.srv[1-baseSrv]
+				minter := w.srv[baseSrv]
+				target := minter
+				if ap.Srv > 0 {
+					target = w.other(minter, ap.Srv-1)
 				}
 				host := baseHost
 				hostL := "same"
@@ -748,13 +819,19 @@ func TestServerProvenance(t *testing.T) {
 				if res.called {
 					steps = append(steps, step{name: "x-accepted", params: cloneParams(a.params), hasHdr: true, srv: target.idx, host: host, client: w.identIndex(res.peer), matTime: mat})
 				}
+				// same = the minting instance; replica = another instance the application gave the same
+				// HmacKey; foreign = an instance with a secret of its own (provided or self-drawn)
 				tgtL := "same"
-				if ap.Srv == 1 {
-					tgtL = "other"
+				if target != minter {
+					tgtL = relation(minter, target)
+					labels = append(labels, "xinst:"+secretNames[minter.secret]+"->"+secretNames[target.secret])
+					if minter.ident == target.ident {
+						labels = append(labels, "xinst:same-private-key")
+					}
 				}
 				desc := fmt.Sprintf("%s|%s|srv=%s|host=%s|sleep=%s", baseName, strings.Join(opd, "+"), tgtL, hostL, sleepL)
 				fp = append(fp, desc)
-				mutated := len(ap.Ops) > 0 || ap.Srv == 1 || ap.Host != 0 || strings.HasPrefix(baseName, "cont-bound-other")
+				mutated := len(ap.Ops) > 0 || target != minter || ap.Host != 0 || strings.HasPrefix(baseName, "cont-bound-other")
 				if mutated || ap.Sleep >= 2 {
 					nontrivial = true
 				}
@@ -777,15 +854,27 @@ func TestServerProvenance(t *testing.T) {
 						}
 					} else {
 						labels = append(labels, "op:"+strings.Join(seg[:min(3, len(seg))], ":"))
+						if seg[0] == "forge" && len(seg) > 3 {
+							labels = append(labels, "forge-names:"+seg[3])
+						}
+						if seg[0] == "forge" && len(seg) > 2 && strings.HasSuffix(seg[2], "-secret") {
+							labels = append(labels, "forge-vs-target-secret:"+secretNames[target.secret])
+						}
 					}
 					if res.called {
 						labels = append(labels, "accepted-with:"+seg[0])
 					}
 				}
 			}
-			if w.srv[0].tls || w.srv[1].tls {
+			anyTLS := false
+			for _, s := range w.srv {
+				anyTLS = anyTLS || s.tls
+				labels = append(labels, "srvsecret:"+secretNames[s.secret])
+			}
+			if anyTLS {
 				labels = append(labels, "mode:tls")
 			}
+			labels = append(labels, fmt.Sprintf("instances:%d", len(w.srv)))
 		})
 		stats.Case(name, strings.Join(fp, " ; "), nontrivial, labels...)
 		if stats.WantSample(name) {
